@@ -37,6 +37,7 @@ type Options struct {
 	EncodedPath bool
 	Order       []int // optional: order in which the option functions are applied (a permutation of 0..5)
 	Via         int   // how the options reach the router: 0 New(opts...), 1 New() + WithOptions(opts...), 2 New() + one WithOptions call per option
+	CacheStyle  int   // how caching with a capacity is spelt: 0 CachingWithNum(n), 1 EnableCaching then MaxNumCaches(n), 2 MaxNumCaches(n) then EnableCaching
 }
 
 func (o Options) String() string {
@@ -62,6 +63,9 @@ func (o Options) String() string {
 	if len(o.Order) > 0 {
 		ss = append(ss, fmt.Sprintf("order=%v", o.Order))
 	}
+	if o.Caching && o.CacheStyle > 0 {
+		ss = append(ss, []string{"", "EnableCaching+MaxNumCaches", "MaxNumCaches+EnableCaching"}[o.CacheStyle%3])
+	}
 	if o.Via > 0 {
 		ss = append(ss, fmt.Sprintf("via=WithOptions#%d", o.Via))
 	}
@@ -81,7 +85,15 @@ func (o Options) Rux() []func(*rux.Router) {
 		all[2] = rux.HandleFallbackRoute
 	}
 	if o.Caching {
-		all[3] = rux.CachingWithNum(uint16(o.CacheCap))
+		n := uint16(o.CacheCap)
+		switch o.CacheStyle {
+		case 1:
+			all[3] = func(r *rux.Router) { rux.EnableCaching(r); rux.MaxNumCaches(n)(r) }
+		case 2:
+			all[3] = func(r *rux.Router) { rux.MaxNumCaches(n)(r); rux.EnableCaching(r) }
+		default:
+			all[3] = rux.CachingWithNum(n)
+		}
 	}
 	if o.Intercept {
 		all[4] = rux.InterceptAll(o.InterceptTo)
@@ -119,6 +131,9 @@ func (o Options) NewRouter() *rux.Router {
 	}
 	return rux.New(opts...)
 }
+
+// GenCacheStyle draws how caching with a capacity is spelt.
+func GenCacheStyle(t *rapid.T) int { return rapid.SampledFrom([]int{0, 0, 1, 2}).Draw(t, "cacheStyle") }
 
 // GenVia draws how the options are handed to the router.
 func GenVia(t *rapid.T) int { return rapid.SampledFrom([]int{0, 0, 1, 2}).Draw(t, "optionsVia") }
